@@ -63,6 +63,12 @@ pub enum What {
     ClosureFn { method: &'static str, wrapper: Option<&'static str>, arg_ty: &'static str, suffix: &'static str },
     /// check only: `impl Tr for T` (container) must NOT define the method `name` (the trait default is translated)
     NotOverridden,
+    /// `fn m(&mut self) -> (&mut S, &mut S)` whose body is `if COND { (&mut self.a, &mut self.b) } else { (&mut self.b, &mut self.a) }`:
+    /// no Lean definition; `let (x, y) = self.m();` in a caller copies the fields in and the caller's result writes them back
+    MutBorrow,
+    /// `fn m(&mut self, args) -> &mut T` whose body is `&mut self.field[INDEX]`: the Lean definition `m_index` computes the index;
+    /// `*x.m(args) op= e` / `*x.m(args) = e` in a caller updates `x.field` at that index
+    PlaceFn,
 }
 
 #[derive(Clone, Debug)]
@@ -104,12 +110,31 @@ pub struct FnInfo {
     pub ret: RTy,
     /// Rust parameter names, `self` first if present
     pub rust_params: Vec<String>,
+    /// indices (into `rust_params`) of the `&mut Struct` parameters: their final values are part of the result
+    pub inout: Vec<usize>,
+}
+
+/// a `What::MutBorrow` method
+#[derive(Clone, Debug)]
+pub struct BorrowInfo {
+    pub cond: syn::Expr,
+    pub then_fields: Vec<String>,
+    pub else_fields: Vec<String>,
+}
+
+/// a `What::PlaceFn` method
+#[derive(Clone, Debug)]
+pub struct PlaceInfo {
+    pub field: String,
+    pub index_fn: FnInfo,
 }
 
 #[derive(Clone, Debug)]
 pub struct ConstInfo {
     pub lean: String,
     pub module: String,
+    /// repo-relative Rust source the constant is defined in
+    pub file: String,
     pub ty: RTy,
     /// `true`: `def X : Int`, `false`: `def X : Option Int`
     pub pure: bool,
@@ -145,6 +170,8 @@ pub struct World {
     pub enums: HashMap<String, EnumInfo>,
     pub consts: HashMap<(Option<String>, String), ConstInfo>,
     pub fns: HashMap<(Option<String>, String), FnInfo>,
+    pub borrows: HashMap<(Option<String>, String), BorrowInfo>,
+    pub places: HashMap<(Option<String>, String), PlaceInfo>,
     /// types whose values are only passed around (become Lean type variables)
     pub opaque_types: Vec<String>,
 }
